@@ -13,6 +13,7 @@ _hs = [
          clause="Tcp::from_bytes on a 21-byte buffer with off in 2..=40 (every shortfall) returns Err, no panic"),
     dict(name="c15_tcp_ro_serialise", props=["C15"], kind="bounded", bound="payload <= 6 bytes, off <= 2",
          clause="Vec::from(&Tcp::from_bytes(raw, off)) == raw[off..]"),
+    dict(name="c15_tcp_header_codec", props=["C15"], kind="complete", clause="From<&TcpHeader>(parse(20 header bytes)) == the header bytes, for every header content"),
     dict(name="c16_tcp_payload_offset", props=["C16"], kind="complete", clause="Tcp::payload_offset == off + max(20, 4*data_offset)"),
     dict(name="c17_tcp_set_wrong_kind", props=["C17"], kind="complete", clause="every Tcp setter rejects Bool/Null and leaves the bytes unchanged"),
 ] + [dict(name="c17_tcp_set_%s" % f, props=["C17"], kind="complete",
